@@ -197,6 +197,52 @@ func (w *worldB) Generate(r *simrt.Rand, profile, tier string) any {
 	if s.Family == "datadog" {
 		s.Usr1AtMs = nil
 	}
+	// Ties: part of the scripted stops and reconnect signals fall on the very instant at which the worker wakes up for another
+	// reason - a connection attempt completes or fails, a retry wait ends, a chunk is fed, the first ACK arrives. Which of the two
+	// the worker sees first is then up to the schedule (a stop that arrives while it is between two stages takes paths that a
+	// stop during a wait never reaches, e.g. a chunk received after the stop signal).
+	var instants []int
+	t := 0
+	for _, ch := range s.Chunks {
+		t += ch.DelayMs
+		instants = append(instants, t)
+	}
+	t = 0
+	opened := false
+	for _, c := range s.Conns {
+		switch c.Open.Kind {
+		case "ok":
+			t += c.Open.DelayMs
+			instants = append(instants, t)
+			if len(c.Sends) > 0 && c.Sends[0].Kind == "ok" {
+				instants = append(instants, t+c.Sends[0].DelayMs)
+				if len(c.Acks) > 0 {
+					instants = append(instants, t+c.Sends[0].DelayMs+c.Acks[0].DelayMs)
+				}
+			}
+			opened = true
+		case "err":
+			t += c.Open.DelayMs
+			instants = append(instants, t, t+s.RetryMs)
+			t += s.RetryMs
+		default:
+			t += s.OpenTimeoutMs
+			instants = append(instants, t, t+s.RetryMs)
+			t += s.RetryMs
+		}
+		if opened {
+			break
+		}
+	}
+	if !opened {
+		instants = append(instants, t) // the first attempt beyond the script succeeds at once
+	}
+	if s.StopAtMs >= 0 && r.Bool(30) {
+		s.StopAtMs = instants[r.Intn(len(instants))]
+	}
+	if len(s.Usr1AtMs) > 0 && r.Bool(20) {
+		s.Usr1AtMs[0] = instants[r.Intn(len(instants))]
+	}
 	return s
 }
 
@@ -951,7 +997,7 @@ func (r *bRun) evaluate(out *Outcome) {
 	out.Nontrivial = nFaults > 0 && out.Obligations > 0
 	for _, pat := range []string{"aborted before queueing chunk for ack", "soft-stop requested while there are still pending",
 		"received ACK to unknown chunk", "max session duration reached", "received a SIGUSR1", "stop requested (recovery stage)",
-		"stop requested (connection opening stage)", "stop requested (retry wait)", "timeout waiting for acknowledger to soft stop", "BUG:"} {
+		"stop requested (connection opening stage)", "stop requested (retry wait)", "stop requested (normal stage), hand back", "stop requested (normal stage)", "timeout waiting for acknowledger to soft stop", "BUG:"} {
 		out.probe("log:"+pat, strings.Count(out.Log, pat))
 	}
 	if n := strings.Count(out.Log, "BUG:"); n > 0 {
